@@ -409,9 +409,12 @@ func runC01Cluster(r *rand.Rand, nNodes, requests, churnOps int, sh *core.Shard)
 		return fail, ""
 	}
 	// ---- phase 2: settle, then probe everything
+	// one HTTP and one TCP endpoint lose all their upstreams, so that "nobody
+	// serves it => 502" is probed in every cluster however the churn ended
+	gone := map[string]bool{c01HTTPEps[r.Intn(len(c01HTTPEps))]: true, c01TCPEps[r.Intn(len(c01TCPEps))]: true}
 	c.mu.Lock()
 	for _, h := range c.ups {
-		if h.goaway.Load() && !h.closed.Load() {
+		if (h.goaway.Load() || gone[h.ep]) && !h.closed.Load() {
 			h.closed.Store(true)
 			go h.shutdown()
 		}
